@@ -111,6 +111,22 @@ def shaped():
     # funnel whose defenders are in an even cycle (defence is a choice)
     res.append(af(f["n"], [tuple(p) for p in f["att"]] + [(7, 8), (8, 7)], "funnelchoice"))
     res.append(af(f["n"], [tuple(p) for p in f["att"]] + [(7, 8), (8, 7), (1, 7)], "funnelfeedback"))
+    # twin targets behind a choice: a<->b both attack b1..b5, which attack x1 and x2 (product 32 each); x_i -> z_i -> y.  Few complete sets,
+    # but many admissible non-complete ones on the way up
+    for twins in (1, 2):
+        att = [(1, 2), (2, 1)]
+        bs = list(range(3, 8))
+        att += [(1, b) for b in bs] + [(2, b) for b in bs]
+        nxt = 8
+        zs = []
+        for _ in range(twins):
+            x, z = nxt, nxt + 1
+            nxt += 2
+            att += [(b, x) for b in bs] + [(x, z)]
+            zs.append(z)
+        y = nxt
+        att += [(z, y) for z in zs]
+        res.append(af(y, att, "funneltwins%d" % twins))
     return res
 
 
@@ -147,6 +163,20 @@ def gadget_unions(seed=1, max_n=8, triples=70):
         if rng.random() < 0.3:
             u = af(u["n"], [tuple(p) for p in u["att"]] + [(rng.randint(1, u["n"]), rng.randint(1, u["n"]))], u["tag"] + "+link")
         res.append(u)
+    # cascades below a choice: a<->b both attack g; a random DAG of 3-5 arguments hangs from g (each attacked by one or two earlier ones);
+    # labels in random order (ids / declaration order vary).  Arguments in every preferred extension that are not ideal, in cascades
+    # whose pruning order matters.
+    for _ in range(triples):
+        k = rng.randint(3, 5)
+        nodes = ["a", "b", "g"] + ["n%d" % i for i in range(k)]
+        att = [("a", "b"), ("b", "a"), ("a", "g"), ("b", "g")]
+        for i in range(k):
+            for src in rng.sample(nodes[2:3 + i], rng.randint(1, min(2, 1 + i))):
+                att.append((src, "n%d" % i))
+        perm = list(range(1, len(nodes) + 1))
+        rng.shuffle(perm)
+        lab = dict(zip(nodes, perm))
+        res.append(af(len(nodes), [(lab[x], lab[y]) for x, y in att], "cascade%d" % k))
     return res
 
 
